@@ -42,6 +42,9 @@ CHECKS = {
   'C14': dict(category='other', technique='symbolic execution of the traced combinators with uninterpreted step/filter/scan functions (z3 EUF terms) + QF_UF/QF_UFNRA equivalence queries, including reverse-mode gradient IRs',
               text='trajectory_from_step, repeated, step_with_filters, nested_checkpoint_scan (carries, non-scalar stacked outputs and gradients), accumulate_repeated and DFI are equal to their sequential definitions for EVERY step/filter function and all data, for each enumerated split / ordered factorisation.',
               design='§3 C14'),
+  'C15': dict(category='other', technique='symbolic execution of the traced filter factories with symbolic strength parameters (z3 terms, exp uninterpreted) + QF_NRA queries on the exp-arguments; polynomial identities for application and Robert-Asselin',
+              text='For ALL positive attenuation/scale/dt/tau: factors depend only on total wavenumber, equal 1 for the mean, lie in (0,1], are non-increasing, compose over half steps and follow the documented top-mode law (orders 1..18, cutoffs, both layouts, padded grids); application to pytrees is an elementwise product on spectral leaves and the identity on others; array strengths act slice-wise; Robert-Asselin identities for all r.',
+              design='§3 C15'),
   'C13': dict(category='other', technique='symbolic execution of the traced jaxpr + QF_LRA queries (monomial abstraction for bilinear clauses)',
               text='Bounded symbolic verification of the sigma calculus identities for ALL column data and vertical velocities on each enumerated level set (even, dyadic uneven, seeded random), axis and shape.',
               design='§3 C13'),
